@@ -25,7 +25,7 @@
    Polylines: width <= 1 never reaches this machinery (polyline/styled.rs: draw_iter over points(), StyledIter::Thin), so
    there is no `polyline_w1_is_thin` statement to make here; it is C19_polyline_* of the tri builder. *)
 From EG Require Import Base.Prelude Model.Geometry Model.Line Model.Thickline Model.Join Model.JoinTri.
-From EG Require Import Proofs.Join Proofs.JoinTri Proofs.JoinW1 Proofs.JoinTriDraw Proofs.JoinOutline Proofs.JoinOutlineAny Proofs.JoinCollapsed Proofs.JoinW1Collapsed.
+From EG Require Import Proofs.Join Proofs.JoinTri Proofs.JoinW1 Proofs.JoinTriDraw Proofs.JoinOutline Proofs.JoinOutlineAny Proofs.JoinCollapsed Proofs.JoinW1Collapsed Proofs.JoinW1Line.
 Set Default Timeout 60.
 
 Theorem C19_join_extents_w1 : forall l, extents l 1 SONone = Some (l, l).
@@ -167,3 +167,12 @@ Theorem C19_join_tri_outline_w1_proper : forall t al, tri_big t -> jt_area_doubl
     (forall pc, In pc px -> snd pc = 1) /\
     (forall p, In p (map fst px) <-> In p (line_points (L b c)) \/ In p (line_points (L c a)) \/ In p (line_points (L a b))).
 Proof. exact tri_outline_w1_proper. Qed.
+
+(* ... and the remaining case made explicit: a triangle WITHOUT area with a stroke of width 1 and Inside alignment paints exactly
+   the Bresenham line between its first and last vertex in (y,x) order (its three edge lines degenerate to that one line) *)
+Theorem C19_join_flat_inside_w1_is_line : forall t fill, tri_big t -> jt_area_doubled t = 0 ->
+  let '(p1, p2, p3) := jt_sorted_yx (jt_sorted_clockwise t) in
+  exists px, jt_pixels t 1 Style.Inside fill = Some px /\
+    (forall pc, In pc px -> snd pc = 1) /\
+    (forall p, In p (map fst px) <-> In p (line_points (L p1 p3))).
+Proof. exact flat_inside_w1_is_line. Qed.
